@@ -39,6 +39,16 @@ func (e *Engine) intrinsic(fr *Frame, st *State, name string, fn *ssa.Function, 
 			bt = tImp(guard, bt)
 		}
 		res := fmt.Sprintf("(%s ((%s %s)) %s)", q, bv.S, sort, bt.S)
+		if name == "GvcExists" && sort == sInt {
+			vars := shiftedVariants(bt.S, bv.S, func() string { e.nfresh++; return fmt.Sprintf("k%d", e.nfresh) })
+			if len(vars) > 0 {
+				parts := []string{res}
+				for _, v := range vars {
+					parts = append(parts, fmt.Sprintf("(exists ((%s Int)) %s)", v.Var, v.Body))
+				}
+				res = "(or " + strings.Join(parts, " ") + ")"
+			}
+		}
 		if name == "GvcForall" && sort == sInt {
 			// the same statement over the absolute element index, so that instantiation triggers
 			// on reads of the backing store match whatever the slice offsets are (see DESIGN §2.4)
